@@ -5,14 +5,16 @@
 set -u
 V="$(cd "$(dirname "$0")/.." && pwd)"
 ID="$1"; X="$2"
-SRC="/tmp/wt-$ID/out/$X"
-DST="$V/seeded/$ID-$X"
+SRC="${SEEDED_SRC:-/tmp/wt-$ID/out/$X}"
+NAME="${SEEDED_NAME:-$ID-$X}"
+DST="$V/seeded/$NAME"
+CHECKS="${SEEDED_CHECKS:-}"
 mkdir -p "$DST"
 if [ -f "$SRC/patch.diff" ]; then
   cp "$SRC/patch.diff" "$SRC/demo.rs" "$DST/"; cp "$SRC/meta.txt" "$DST/meta.txt" 2>/dev/null
 fi
 [ -f "$DST/patch.diff" ] || { echo "no patch.diff in $SRC or $DST" >&2; exit 2; }
-W="/tmp/verify-$ID-$X"
+W="/tmp/verify-$NAME"
 git -C /repo worktree remove --force "$W" 2>/dev/null
 git -C /repo worktree add -q --detach "$W" HEAD || exit 2
 cleanup() { git -C /repo worktree remove --force "$W" 2>/dev/null; rm -rf "$W"; }
@@ -29,24 +31,26 @@ doc=$(cargo test --offline --doc 2>&1 | grep -E "^test result" | tail -1)
 mut_out=$(cargo test --offline --test demo 2>&1); mut_rc=$?
 mut_demo="exit $mut_rc; $(echo "$mut_out" | grep -E "^test result|process didn.t exit successfully|signal" | tail -1)"
 cd "$V"
-echo "[$ID-$X] baseline demo: $base_demo"
-echo "[$ID-$X] with change : suite: $suite | doc: $doc | demo: $mut_demo | build warnings: $build_warn"
+echo "[$NAME] baseline demo: $base_demo"
+echo "[$NAME] with change : suite: $suite | doc: $doc | demo: $mut_demo | build warnings: $build_warn"
 ok=1
 [ $base_rc -eq 0 ] || ok=0
 echo "$suite" | grep -q "ok\. 98 passed" || ok=0
 echo "$doc" | grep -q "ok\. 3 passed" || ok=0
 [ $mut_rc -ne 0 ] || ok=0
-res=$(MUTATE_SKIP_TESTS=1 "$V/tools/mutate.sh" "$DST/patch.diff" 2>&1)
+res=$(MUTATE_SKIP_TESTS=1 "$V/tools/mutate.sh" "$DST/patch.diff" $CHECKS 2>&1)
 echo "$res" | grep -E "^(CAUGHT|SILENT|OTHER)"
 caught=$(echo "$res" | grep '^CAUGHT:' | sed 's/^CAUGHT: *//')
 other=$(echo "$res" | grep '^OTHER:' | sed 's/^OTHER: *//')
 reasons=$(echo "$res" | grep -E '^  C[0-9]+' | head -8)
-python3 - "$DST" "$ID" "$X" "$ok" "$base_demo" "$suite" "$doc" "$mut_demo" "$caught" "$other" "$reasons" <<'PY'
+python3 - "$DST" "$ID" "$NAME" "$ok" "$base_demo" "$suite" "$doc" "$mut_demo" "$caught" "$other" "$reasons" <<'PY'
 import json, sys, os
-dst, pid, x, ok, base, suite, doc, mut, caught, other, reasons = sys.argv[1:12]
+dst, pid, name, ok, base, suite, doc, mut, caught, other, reasons = sys.argv[1:12]
+checks_run = os.environ.get('SEEDED_CHECKS', '') or 'all 20'
+
 meta_txt = open(os.path.join(dst, 'meta.txt')).read() if os.path.exists(os.path.join(dst, 'meta.txt')) else ''
 m = {
- "id": f"{pid}-{x}",
+ "id": name,
  "breaks_property": pid,
  "author": "independent sub-agent given only the property text and a scratch worktree",
  "what_it_needs_to_manifest": meta_txt.strip(),
@@ -54,11 +58,11 @@ m = {
  "what_was_run": {
    "scratch worktree of /repo HEAD, demo copied to tests/demo.rs": {
      "demo without the change": base, "cargo test --lib with the change": suite, "cargo test --doc with the change": doc, "demo with the change": mut},
-   "all 20 checks, quick tier, regressions skipped (git -C /repo apply patch.diff; ./check <ID> quick; git -C /repo checkout -- .)": {
+   f"checks run: {checks_run}; quick tier, regressions skipped (git -C /repo apply patch.diff; ./check <ID> quick; git -C /repo checkout -- .)": {
      "checks reporting VIOLATION": caught.split(), "checks exiting 2": other.split(), "first reasons": reasons.splitlines()},
  },
  "caught_by_owning_property_check": pid in caught.split(),
 }
 json.dump(m, open(os.path.join(dst, 'meta.json'), 'w'), indent=1)
-print(f"[{pid}-{x}] confirmed={m['confirmed']} owning-check-catches={m['caught_by_owning_property_check']}")
+print(f"[{name}] confirmed={m['confirmed']} owning-check-catches={m['caught_by_owning_property_check']}")
 PY
